@@ -18,6 +18,17 @@ def buffers(seed, n, prefix='r'):
             r = rng.random()
             if r < 0.3:
                 b = wire.rbytes(rng, rng.randrange(0, wire.HDR[kind] + 12))
+            elif r < 0.4 and kind in ('eth', 'cm', 'if'):
+                # inner lengths that need the high byte of their 16 bit field, the buffer cut anywhere
+                if kind == 'eth':
+                    b = wire.eth_payload(rng, rng.choice([255, 256, 257, 300, 512, 700]))
+                elif kind == 'cm':
+                    lens = [rng.choice([0, 3, 254, 255, 256, 300, 511, 600]) for _ in range(4)]
+                    b = wire.cm_payload(rng, lens, wire.rbytes(rng, rng.choice([0, 2, 255, 256, 400])))
+                else:
+                    b = wire.if_payload(rng, rng.choice([0, 5, 255, 256, 257, 511, 600]), rng.choice([0, 3, 256, 300]))
+                if rng.random() < 0.7:
+                    b = b[:rng.randrange(wire.HDR[kind], len(b) + 1)]
             elif r < 0.55:
                 b = wire.typed_payload(rng, kind, rng.choice([wire.HDR[kind], wire.HDR[kind] + 1, 40, 64, 300]))
             elif r < 0.8:
